@@ -61,7 +61,7 @@ Proof. intros. rewrite rev_app_distr. reflexivity. Qed.
 Lemma Sx_postfix : forall cpp ra ta X tr,
   Sx cpp ra ta 0 -> ra <> [] -> X <> [] -> nojux X ->
   (forall f s rest n, length (ra ++ X ++ rest) <= f ->
-      opos (bef s) -> nojux rest -> ND (bef s) (ra ++ X ++ rest) ->
+      opos (bef s) -> nojux rest -> safe s ->
       p2_loop cpp (comp cpp f) (S n) (mkafter s ra ta, X ++ rest) =
       p2_loop cpp (comp cpp f) n (mkafter s (ra ++ X) tr, rest)) ->
   Sx cpp (ra ++ X) tr 0.
@@ -133,10 +133,7 @@ Proof.
     rewrite (term_id s1 lm m rest Hj).
     - unfold s1, mkafter, set_depth, set_stk. cbn [stk bef depth asgn Nat.pred rev app].
       rewrite rev_app_distr. cbn [rev app]. reflexivity.
-    - unfold s1, mkafter. cbn [bef].
-      assert (H := ND_app (ra ++ [(ld, TDot)]) (bef s) ((lm, TId m) :: rest)).
-      rewrite <- app_assoc in H. cbn [app] in H. specialize (H Hnd).
-      rewrite rev_app_distr in H. cbn [rev app] in H. exact H. }
+    - right. reflexivity. }
   rewrite Hb. reflexivity.
 Qed.
 
@@ -174,10 +171,7 @@ Proof.
     - cbn. split; [reflexivity|discriminate].
     - apply pstart_vac. reflexivity.
     - reflexivity.
-    - unfold s1, sa, mkafter. cbn [bef].
-      assert (H := ND_app (ra ++ [(l, TLB)]) (bef s) (ri ++ (l2, TRB) :: rest)).
-      rewrite <- app_assoc in H. cbn [app] in H. specialize (H Hnd).
-      rewrite rev_app_distr in H. cbn [rev app] in H. exact H.
+    - right. reflexivity.
     - intros r a Hr. apply quiet_closer; [right; left; reflexivity|lia].
     - intros _ a. apply quiet_closer; [right; left; reflexivity|lia].
     - intros _ a. apply quiet_closer; [right; left; reflexivity|lia].
@@ -230,10 +224,7 @@ Proof.
     - cbn. split; [reflexivity|discriminate].
     - apply pstart_vac. reflexivity.
     - reflexivity.
-    - unfold s1, sa, mkafter, set_bef. cbn [bef].
-      assert (H := ND_app (rf ++ [(l, TLP)]) (bef s) (rg ++ (l2, TRP) :: rest)).
-      rewrite <- app_assoc in H. cbn [app] in H. specialize (H Hnd).
-      rewrite rev_app_distr in H. cbn [rev app] in H. exact H.
+    - left. unfold s1, sa, mkafter, set_bef. cbn [stk]. discriminate.
     - intros r a Hr. apply quiet_closer; [left; reflexivity|lia].
     - intros _ a. apply quiet_closer; [left; reflexivity|lia].
     - intros _ a. apply quiet_closer; [left; reflexivity|lia].
